@@ -29,6 +29,7 @@ func init() {
 			"the offline checker replays EVERY prefix of every command's write log onto the command's pre-state (and every permutation of the certificate uploads that precede the manifest write, because pending certificates are uploaded in Go map order), reloads a fresh gcsca.CertificateAuthority from each such store and checks: manifest parses, every listed key version resolves to a stored parseable certificate, a recorded primary signing key has a certificate that verifies under the stored root. " +
 			"further families (extra.go), judged by the same prefix and end-of-command rules: rotations continuing a history after a rotation interrupted at six points (leftover objects, same/default/new/zero serial, every overwrite x keep-going combination, fresh process or the authority value that saw the error); fault-free histories over flag x serial (unset, zero, new, >64 bit, colliding with a stored object) x process model (fresh, one long-lived authority value, mixed = stale value) with a re-used SigningKeyContext; a complete second command on another store nested at every call position of a bootstrap and a rotation; authorities on disjoint stores in parallel goroutines; storage weather (pairs, bursts, outages of failing storage calls reported at open/write/commit with plain, status-coded and context errors); bootstraps of an empty store under every flag combination with equal / zero / unset / >64-bit serials, nested and empty common names and both certificates on one object name. " +
 			"fourth-round families (config.go): configured authorities, i.e. bucket / root path / certificate directory (next to the bucket, nested, empty, dot segments, trailing slash, absolute, not UTF-8, characters the text format escapes), key version names of the key manager (not UTF-8, quotes / newlines / control characters, Unicode, KMS style, counters) and common names, singly on both stores and in drawn combinations, reloaded through the store's real client (storage/local's reader on the real directory) before every object write and after every command, a later rotation possibly with another certificate directory; storage that takes fewer bytes than it is given without an error (0, 1, half, all but one, at most 512) at the k-th object write of a bootstrap / rotation, keeping the accepted part of a new non-manifest object or dropping it, then a follow-up rotation; the nonprod command line under --bucket / --cert_dir / --root_path / common-name option combinations, judged after every command. " +
+			"fifth-round family (long.go): long histories, i.e. a bootstrap followed by 10..60 (thorough: up to 120) rotations under key version names / certificate directories / common names of growing length (harness and command-line defaults, Cloud-KMS resource names, names at the length limits of KMS and of object names) so that the manifest grows through 4, 8, 16, 32 and 64 KiB, by fresh processes or one long-lived authority value, reloaded through the store's real client before every object write and after every command, the reloading process's storage possibly returning its data in pieces of at most 3 / 100 / 1000 / 4096 bytes per read. " +
 			"non-trivial = prefixes whose store differs from the previous prefix; distinct = (command kind, store, number of writes applied, object written last, permutation id) cells; upload orders actually observed are counted",
 		Assumptions: []string{"crash granularity is one completed object write (the property's granularity); torn files are not modelled", "memca has no store and is outside C11", "a storage writer that reports fewer accepted bytes than given leaves either the accepted part (only of a new object that is not the manifest) or nothing: a torn manifest or a torn replacement of a referenced object is below the property's object granularity"},
 		ShardsQuick: 8, ShardsThor: 16, TimeoutS: 1800, TimeoutThor: 3600, Exhaustive: true, Run: run,
